@@ -12,16 +12,80 @@
 #include <sys/wait.h>
 #include <unistd.h>
 
-typedef struct { pid_t pid; int fd; char *buf; size_t len, cap; void *tag; uint64_t t0; int used; } slot_t;
+/* The pool consists of P small "zygote" processes forked before the explorer allocates anything big.  The master
+ * never forks again: it ships a job to an idle zygote, which forks the child that executes it (cheap: the zygote's
+ * address space is small), collects the child's result with a wall-clock limit and sends it back. */
+typedef struct { pid_t pid; int to, from; char *buf; size_t len, cap; size_t need; void *tag; uint64_t t0; int busy; int hdr[4]; size_t hdr_got; } slot_t;
 static slot_t *slots; static int nslots; static int outstanding; static double timeout_s_ = 30;
 static unsigned long total;
 static int child_fd = -1;
 static char *cbuf; static size_t clen, ccap; static int nviol;
 
+static int read_full(int fd, void *buf, size_t n) {
+	size_t o = 0;
+	while (o < n) { ssize_t r = read(fd, (char *) buf + o, n - o); if (r > 0) o += (size_t) r; else if (r == 0) return 0; else if (errno != EINTR) return 0; }
+	return 1;
+}
+static int write_full(int fd, const void *buf, size_t n) {
+	size_t o = 0;
+	while (o < n) { ssize_t w = write(fd, (const char *) buf + o, n - o); if (w > 0) o += (size_t) w; else if (errno != EINTR) return 0; }
+	return 1;
+}
+static void zygote_loop(int in, int out) {
+	char *job = NULL; size_t jcap = 0; char *rb = NULL; size_t rcap = 0;
+	for (;;) {
+		uint64_t hdr[2];
+		if (!read_full(in, hdr, sizeof hdr)) _exit(0);
+		run_fn fn = (run_fn) (uintptr_t) hdr[0]; size_t n = (size_t) hdr[1];
+		if (n + 1 > jcap) { jcap = n + 4096; job = realloc(job, jcap); }
+		if (n && !read_full(in, job, n)) _exit(0);
+		int p[2]; if (pipe(p)) _exit(3);
+		uint64_t t0 = vs_real_now_ns();
+		pid_t pid = fork();
+		if (pid < 0) _exit(3);
+		if (pid == 0) {
+			close(p[0]); close(in); close(out);
+			child_fd = p[1]; clen = 0; nviol = 0;
+			if (!getenv("VERIF_DEBUG")) { int dn = open("/dev/null", O_WRONLY); if (dn >= 0) { dup2(dn, 2); close(dn); } }
+			fn(job, n);
+			res_finish();
+		}
+		close(p[1]);
+		size_t rl = 0; int timed_out = 0;
+		for (;;) {
+			struct pollfd pf = { p[0], POLLIN, 0 };
+			int pr = poll(&pf, 1, 250);
+			if (pr > 0) {
+				if (rcap - rl < 4096) { rcap = rcap ? rcap * 2 : 16384; rb = realloc(rb, rcap); }
+				ssize_t r = read(p[0], rb + rl, rcap - rl);
+				if (r > 0) rl += (size_t) r; else if (r == 0) break; else if (errno != EINTR) break;
+			}
+			if ((double) (vs_real_now_ns() - t0) / 1e9 > timeout_s_) { kill(pid, SIGKILL); timed_out = 1; break; }
+		}
+		close(p[0]);
+		int st = 0; waitpid(pid, &st, 0);
+		int rh[4]; rh[0] = timed_out ? 2 : 0; rh[1] = WIFSIGNALED(st) ? WTERMSIG(st) : 0; rh[2] = WIFEXITED(st) ? WEXITSTATUS(st) : -1; rh[3] = (int) rl;
+		if (!write_full(out, rh, sizeof rh) || (rl && !write_full(out, rb, rl))) _exit(0);
+	}
+}
 void run_init(int parallel, double timeout_s) {
-	if (slots) { for (int i = 0; i < nslots; i++) free(slots[i].buf); free(slots); }
+	if (slots) return;            /* the pool is created once, before the explorer grows */
 	nslots = parallel; slots = calloc((size_t) parallel, sizeof(slot_t)); timeout_s_ = timeout_s; outstanding = 0;
 	signal(SIGPIPE, SIG_IGN);
+	fflush(stdout); fflush(stderr);
+	for (int i = 0; i < parallel; i++) {
+		int a[2], b[2]; if (pipe(a) || pipe(b)) { perror("pipe"); exit(2); }
+		pid_t pid = fork();
+		if (pid < 0) { perror("fork"); exit(2); }
+		if (pid == 0) {
+			close(a[1]); close(b[0]);
+			for (int k = 0; k < i; k++) { close(slots[k].to); close(slots[k].from); }
+			zygote_loop(a[0], b[1]);
+			_exit(0);
+		}
+		close(a[0]); close(b[1]);
+		slots[i].pid = pid; slots[i].to = a[1]; slots[i].from = b[0];
+	}
 }
 int run_parallel(void) { return nslots; }
 int run_outstanding(void) { return outstanding; }
@@ -29,62 +93,37 @@ unsigned long run_total(void) { return total; }
 
 void run_submit(run_fn fn, const void *job, size_t n, void *tag) {
 	int s = -1;
-	for (int i = 0; i < nslots; i++) if (!slots[i].used) { s = i; break; }
+	for (int i = 0; i < nslots; i++) if (!slots[i].busy) { s = i; break; }
 	if (s < 0) { fprintf(stderr, "run_submit: no free slot\n"); exit(2); }
-	int p[2];
-	if (pipe(p)) { perror("pipe"); exit(2); }
-	fflush(stdout); fflush(stderr);
-	pid_t pid = fork();
-	if (pid < 0) { perror("fork"); exit(2); }
-	if (pid == 0) {
-		close(p[0]);
-		for (int i = 0; i < nslots; i++) if (slots[i].used) close(slots[i].fd);
-		child_fd = p[1]; clen = 0; nviol = 0;
-		if (!getenv("VERIF_DEBUG")) { int dn = open("/dev/null", O_WRONLY); if (dn >= 0) { dup2(dn, 2); close(dn); } }
-		fn(job, n);
-		res_finish();
-	}
-	close(p[1]);
-	slots[s].pid = pid; slots[s].fd = p[0]; slots[s].len = 0; slots[s].tag = tag; slots[s].used = 1;
-	slots[s].t0 = vs_real_now_ns();
+	uint64_t hdr[2] = { (uint64_t) (uintptr_t) fn, (uint64_t) n };
+	if (!write_full(slots[s].to, hdr, sizeof hdr) || (n && !write_full(slots[s].to, job, n))) { fprintf(stderr, "run_submit: zygote died\n"); exit(2); }
+	slots[s].busy = 1; slots[s].tag = tag; slots[s].t0 = vs_real_now_ns(); slots[s].hdr_got = 0; slots[s].len = 0;
 	outstanding++; total++;
-}
-
-static void slot_read(slot_t *s, int *eof) {
-	if (s->cap - s->len < 4096) { s->cap = s->cap ? s->cap * 2 : 16384; s->buf = realloc(s->buf, s->cap + 1); }
-	ssize_t r = read(s->fd, s->buf + s->len, s->cap - s->len);
-	if (r > 0) s->len += (size_t) r;
-	else if (r == 0) *eof = 1;
-	else if (errno != EINTR && errno != EAGAIN) *eof = 1;
 }
 
 int run_wait(run_res_t *out) {
 	if (outstanding == 0) return 0;
 	for (;;) {
 		struct pollfd pf[256]; int map[256]; int n = 0;
-		for (int i = 0; i < nslots && n < 256; i++) if (slots[i].used) { pf[n].fd = slots[i].fd; pf[n].events = POLLIN; pf[n].revents = 0; map[n++] = i; }
-		int pr = poll(pf, (nfds_t) n, 200);
-		uint64_t now = vs_real_now_ns();
+		for (int i = 0; i < nslots && n < 256; i++) if (slots[i].busy) { pf[n].fd = slots[i].from; pf[n].events = POLLIN; pf[n].revents = 0; map[n++] = i; }
+		int pr = poll(pf, (nfds_t) n, 1000);
+		if (pr <= 0) continue;
 		for (int k = 0; k < n; k++) {
+			if (!(pf[k].revents & (POLLIN | POLLHUP | POLLERR))) continue;
 			slot_t *s = &slots[map[k]];
-			int eof = 0, timed_out = 0;
-			if (pr > 0 && (pf[k].revents & (POLLIN | POLLHUP | POLLERR))) slot_read(s, &eof);
-			if (!eof && (double) (now - s->t0) / 1e9 > timeout_s_) { kill(s->pid, SIGKILL); timed_out = 1; eof = 1; }
-			if (eof) {
-				int st = 0; waitpid(s->pid, &st, 0); close(s->fd);
-				if (!s->buf) { s->cap = 16; s->buf = malloc(17); }
-				s->buf[s->len] = 0;
-				out->text = s->buf; out->len = s->len; out->tag = s->tag;
-				out->wall_ms = (double) (vs_real_now_ns() - s->t0) / 1e6;
-				int done = s->len >= 2 && (strstr(s->buf, "\nD\n") || !strncmp(s->buf, "D\n", 2));
-				out->sig = WIFSIGNALED(st) ? WTERMSIG(st) : 0; out->exitcode = WIFEXITED(st) ? WEXITSTATUS(st) : -1;
-				if (timed_out) out->status = 2;
-				else if (done) out->status = 0;
-				else if (WIFSIGNALED(st)) out->status = 1;
-				else out->status = 3;
-				s->used = 0; outstanding--;
-				return 1;
-			}
+			/* results are small; read header then body blocking (the zygote writes them in one go) */
+			if (!read_full(s->from, s->hdr, sizeof s->hdr)) { fprintf(stderr, "run_wait: zygote died\n"); exit(2); }
+			size_t rl = (size_t) s->hdr[3];
+			if (rl + 1 > s->cap) { s->cap = rl + 4096; s->buf = realloc(s->buf, s->cap); }
+			if (rl && !read_full(s->from, s->buf, rl)) { fprintf(stderr, "run_wait: zygote died\n"); exit(2); }
+			s->buf[rl] = 0; s->len = rl;
+			out->text = s->buf; out->len = rl; out->tag = s->tag;
+			out->wall_ms = (double) (vs_real_now_ns() - s->t0) / 1e6;
+			int done = rl >= 2 && (strstr(s->buf, "\nD\n") || !strncmp(s->buf, "D\n", 2));
+			out->sig = s->hdr[1]; out->exitcode = s->hdr[2];
+			if (s->hdr[0] == 2) out->status = 2; else if (done) out->status = 0; else if (s->hdr[1]) out->status = 1; else out->status = 3;
+			s->busy = 0; outstanding--;
+			return 1;
 		}
 	}
 }
